@@ -124,7 +124,8 @@ fn panic_class(msg: &str, data: &[u8]) -> &'static str {
 /// the RFC 3597 `\#` marker) can possibly be formed from its octets. The test
 /// over-approximates what the tokenizer could see: backslashes are dropped,
 /// `\DDD` is decoded, and mnemonics are searched as substrings.
-const SUPPORTED: [&str; 10] = ["A", "NS", "CNAME", "SOA", "PTR", "HINFO", "MX", "TXT", "SRV", "NAPTR"];
+const SUPPORTED: [&str; 20] = ["A", "NS", "CNAME", "SOA", "PTR", "HINFO", "MX", "TXT", "SRV", "NAPTR",
+    "MB", "MD", "MF", "MG", "MR", "DNAME", "MINFO", "RP", "SSHFP", "TLSA"];
 
 struct Elig { unsupported: Vec<Vec<u8>> }
 impl Elig {
@@ -441,6 +442,16 @@ fn gen_str(r: &mut Rng) -> Vec<u8> {
     (0..n).map(|_| if r.chance(4, 5) { *r.pick(b"abc xyz0123=-_./:") } else { *r.pick(&[b'"', b'\\', b';', b'(', b')', b'@', 0, 10, 13, 9, 127, 128, 255, b'$']) }).collect()
 }
 
+/// one to three hex tokens whose digits add up to an even number
+fn hex_words(r: &mut Rng) -> Vec<Field> {
+    let total = 2 * (1 + r.below(8)) as usize;
+    let digits: String = (0..total).map(|_| *r.pick(b"0123456789abcdefABCDEF") as char).collect();
+    let mut cuts = vec![0usize, total];
+    for _ in 0..r.below(3) { cuts.push(1 + r.below(total as u64 - 1) as usize); }
+    cuts.sort(); cuts.dedup();
+    cuts.windows(2).map(|w| Field::Word(digits[w[0]..w[1]].to_string())).collect()
+}
+
 fn gen_zone(r: &mut Rng) -> Vec<Item> { gen_zone_of(r, false) }
 
 fn gen_zone_of(r: &mut Rng, model_types: bool) -> Vec<Item> {
@@ -460,7 +471,7 @@ fn gen_zone_of(r: &mut Rng, model_types: bool) -> Vec<Item> {
         let ttl = *r.pick(&[0u32, 60, 300, 300, 3600, 3600, 86400, 2147483647]);
         let plain = r.chance(3, 4);
         let nm = |r: &mut Rng| Field::Name(if r.chance(1, 6) { vec![] } else if r.chance(1, 5) { origin.clone() } else { gen_name(r, &origin, plain) });
-        let pickt = if model_types { *r.pick(&[0u64, 2, 3, 4, 5, 6, 7, 7, 8, 9, 10]) } else { r.below(14) };
+        let pickt = if model_types { *r.pick(&[0u64, 2, 3, 4, 5, 6, 7, 7, 8, 9, 10, 12, 13, 13, 14, 15, 16, 16, 17]) } else { r.below(18) };
         let (rtype, fields): (&'static str, Vec<Field>) = match pickt {
             0 => ("A", vec![Field::Word(format!("{}.{}.{}.{}", r.below(256), r.below(256), r.below(256), r.below(256)))]),
             1 => ("AAAA", vec![Field::Word(r.pick(&["2001:db8::1", "::", "::1", "fe80::1:2:3:4", "1:2:3:4:5:6:7:8", "::ffff:192.0.2.1"]).to_string())]),
@@ -475,7 +486,11 @@ fn gen_zone_of(r: &mut Rng, model_types: bool) -> Vec<Item> {
             10 => ("NAPTR", vec![Field::Int(r.below(65536)), Field::Int(r.below(65536)), Field::Str(gen_str(r)), Field::Str(gen_str(r)), Field::Str(gen_str(r)), nm(r)]),
             11 => ("DS", vec![Field::Int(r.below(65536)), Field::Int(r.below(256)), Field::Int(r.below(256)), Field::Word("0123456789abcdef".into()), Field::Word("AABBCCDD".into())]),
             12 => ("DNAME", vec![nm(r)]),
-            _ => ("SSHFP", vec![Field::Int(r.below(256)), Field::Int(r.below(256)), Field::Word("deadbeef00".into())]),
+            13 => { let mut f = vec![Field::Int(r.below(256)), Field::Int(r.below(256))]; f.extend(hex_words(r)); ("SSHFP", f) }
+            14 => ("MINFO", vec![nm(r), nm(r)]),
+            15 => ("RP", vec![nm(r), nm(r)]),
+            16 => { let mut f = vec![Field::Int(r.below(256)), Field::Int(r.below(256)), Field::Int(r.below(256))]; f.extend(hex_words(r)); ("TLSA", f) }
+            _ => (*r.pick(&["MB", "MD", "MF", "MG", "MR"]), vec![nm(r)]),
         };
         items.push(Item::Rec(Rec { owner: owner.clone(), ttl, rtype, fields }));
     }
@@ -540,7 +555,9 @@ fn main() {
         b"a. 1 IN TXT \"a\nb\"\n", b"a. 1 IN TXT \"abc", b"a. 1 IN TXT a\\", b"a. 1 IN TXT a\\0", b"@", b"$", b"\\#",
         b"a. 1 IN TYPE999 \\# 2 0102\n", b"a. 1 IN TYPE999 \\# 0\n", b"a. 1 IN A \\# 4 01020304\n",
         b"$\xC0\x80 x\n", b"$INCLUDE \xC0\x80\n",
-        b"a. 1 IN DS 1 1 1 \xC0\xA0\n", b"a. 1 IN MX 65535 b.\n", b"a. 1 IN MX 65536 b.\n", b"a. 1 IN MX 655350 b.\n",
+        b"a. 1 IN DS 1 1 1 \xC0\xA0\n", b"a. 1 IN SSHFP 1 1 \xC0\xA0\n", b"a. 1 IN SSHFP 1 1 ab c\n", b"a. 1 IN SSHFP 1 1 a (\n b ) ; x\n",
+        b"a. 1 IN SSHFP 1 1\n", b"a. 1 IN SSHFP 256 1 ab\n", b"a. 1 IN SSHFP +1 01 \"ab\" \\097b\n", b"a. 1 IN TLSA 1 1 1 abg\n", b"a. 1 IN TLSA 1 1 1 ab",
+        b"$ORIGIN x.\na 1 IN RP @ b\n 1 IN MINFO a. @\n 1 IN DNAME a\n 1 IN MR .\n", b"a. 1 IN MX 65535 b.\n", b"a. 1 IN MX 65536 b.\n", b"a. 1 IN MX 655350 b.\n",
         b"a. +1 IN A 1.2.3.4\n", b"a. 1 CLASS1 TYPE1 1.2.3.4\n", b"a. 1 IN A 01.2.3.4\n", b"a. 1 IN A 1.2.3\n",
         b"$ORIGIN x.\n@ 1 IN NS @\n@ 1 IN NS x.\n",
         b"$ORIGIN x.\na 1 IN NS \\@\n",
